@@ -36,15 +36,15 @@ type Violation struct {
 
 // Part is the per-scenario (or per-family) breakdown kept in evidence.
 type Part struct {
-	Name        string `json:"name"`
-	Evaluations int64  `json:"evaluations"`
-	States      int64  `json:"states"`
-	Transitions int64  `json:"transitions"`
-	Outcomes    int64  `json:"distinct_outcomes"`
-	Exhaustive  bool   `json:"exhaustive"`
-	Bound       string `json:"bound,omitempty"`
-	Note        string `json:"note,omitempty"`
-	Blocked     bool   `json:"some_thread_blocked,omitempty"`
+	Name        string  `json:"name"`
+	Evaluations int64   `json:"evaluations"`
+	States      int64   `json:"states"`
+	Transitions int64   `json:"transitions"`
+	Outcomes    int64   `json:"distinct_outcomes"`
+	Exhaustive  bool    `json:"exhaustive"`
+	Bound       string  `json:"bound,omitempty"`
+	Note        string  `json:"note,omitempty"`
+	Blocked     bool    `json:"some_thread_blocked,omitempty"`
 	WallS       float64 `json:"wall_s,omitempty"`
 }
 
@@ -59,16 +59,16 @@ type Run struct {
 	start      time.Time
 	Deadline   time.Time
 
-	mu           sync.Mutex
-	parts        []Part
-	samples      []interface{}
-	violations   []Violation
-	seenSig      map[string]bool
-	rule         string
-	assumptions  []string
-	extra        map[string]interface{}
+	mu            sync.Mutex
+	parts         []Part
+	samples       []interface{}
+	violations    []Violation
+	seenSig       map[string]bool
+	rule          string
+	assumptions   []string
+	extra         map[string]interface{}
 	notExhaustive []string
-	vacuous      []string
+	vacuous       []string
 }
 
 var verifDir = func() string {
